@@ -364,7 +364,7 @@ pub fn run(ctx: &mut Ctx) {
     for (n, ok) in r2::selftest() {
         ctx.selftest(&n, ok);
     }
-    ctx.require(&["edge_key", "random_key", "pub_coordinate_leading_zero_byte", "y_odd", "y_even", "pub_sec1", "pub_hex", "pub_spki", "priv_bytes", "priv_hex", "priv_pkcs8", "openssl_pkcs8", "openssl_spki", "openssl_sm2cipher", "asn1_encrypt", "asn1_decrypt", "asn1_zero_coord", "asn1_top_bit_set", "asn1_top_bit_clear", "reject_offcurve", "reject_coordinate_ge_p", "reject_coordinate_eq_p", "reject_wrong_length", "reject_wrong_pc_byte", "reject_priv_wrong_length", "key_from_gen_keypair", "key_with_jacobian_public_point", "crafted_pub_point", "pkcs8_foreign_public_key", "pub_point_with_zero_x", "pkcs8_compressed_public_key", "spki_unused_bits"]);
+    ctx.require(&["edge_key", "random_key", "pub_coordinate_leading_zero_byte", "y_odd", "y_even", "pub_sec1", "pub_hex", "pub_spki", "priv_bytes", "priv_hex", "priv_pkcs8", "openssl_pkcs8", "openssl_spki", "openssl_sm2cipher", "asn1_encrypt", "asn1_decrypt", "asn1_zero_coord", "asn1_top_bit_set", "asn1_top_bit_clear", "reject_offcurve", "reject_coordinate_ge_p", "reject_coordinate_eq_p", "reject_wrong_length", "reject_wrong_pc_byte", "reject_priv_wrong_length", "key_from_gen_keypair", "key_with_jacobian_public_point", "crafted_pub_point", "pkcs8_foreign_public_key", "pub_point_with_zero_x", "pkcs8_compressed_public_key", "spki_unused_bits", "asn1_zero_coord_short_msg"]);
     let c = r2::curve();
     // ---- key round trips
     let n = ctx.n(150, 6000);
@@ -521,6 +521,12 @@ pub fn run(ctx: &mut Ctx) {
         let msg = p.bytes(ml);
         for (cf, ord) in [(false, Order::C1C3C2), (false, Order::C1C2C3), (true, Order::C1C3C2), (true, Order::C1C2C3)] {
             asn1_case(ctx, &d, &msg, &k, cf, ord, &format!("zero_coord:{}", cls));
+        }
+        // the shortest documents there are: a shortened coordinate AND a message of 1, 2, 3 bytes
+        for ml in 1..=3usize {
+            let m = p.bytes(ml);
+            ctx.class("asn1_zero_coord_short_msg");
+            asn1_case(ctx, &d, &m, &k, false, Order::C1C3C2, &format!("zero_coord_short_msg:{}", cls));
         }
     }
     let n = ctx.n(300, 12_000);
